@@ -55,7 +55,7 @@ def import_repo():
     return sys.modules["vyxal"]
 
 
-class CaseTimeout(Exception):
+class CaseTimeout(BaseException):
     pass
 
 
@@ -83,19 +83,124 @@ def _pool_init(initfn):
         initfn()
 
 
-def pool_map(fn, items, procs=None, initfn=None, chunksize=None):
-    """Order-preserving parallel map in fresh worker processes (fork)."""
+def _hard_worker(fn, initfn, conn):
+    _pool_init(initfn)
+    while True:
+        try:
+            job = conn.recv()
+        except EOFError:
+            return
+        if job is None:
+            return
+        idx, item = job
+        try:
+            res = ("ok", fn(item))
+        except BaseException as e:  # noqa: BLE001
+            res = ("exc", type(e).__name__ + ":" + str(e)[:200])
+        try:
+            conn.send((idx, res))
+        except Exception as e:  # noqa: BLE001  unpicklable result
+            conn.send((idx, ("exc", "send:" + type(e).__name__)))
+
+
+def pool_map(fn, items, procs=None, initfn=None, chunksize=None, hard_timeout=None, on_timeout=None):
+    """Order-preserving parallel map in fresh worker processes (fork).
+
+    With hard_timeout (seconds) every item runs under a watchdog in the parent: a
+    worker stuck in C code (where SIGALRM cannot interrupt) is killed and replaced,
+    and the item's result is on_timeout(item).  Each worker has its own pipe, so
+    killing one cannot corrupt a shared queue.
+    """
     items = list(items)
     if not items:
         return []
     procs = procs or min(16, os.cpu_count() or 4)
-    if procs <= 1 or len(items) < 4:
-        _pool_init(initfn)
-        return [fn(x) for x in items]
+    if hard_timeout is None:
+        if procs <= 1 or len(items) < 4:
+            _pool_init(initfn)
+            return [fn(x) for x in items]
+        ctx = mp.get_context("fork")
+        cs = chunksize or max(1, min(200, len(items) // (procs * 4) or 1))
+        with ctx.Pool(procs, initializer=_pool_init, initargs=(initfn,)) as pool:
+            return pool.map(fn, items, chunksize=cs)
+    from multiprocessing.connection import wait as _wait
+
     ctx = mp.get_context("fork")
-    cs = chunksize or max(1, min(200, len(items) // (procs * 4) or 1))
-    with ctx.Pool(procs, initializer=_pool_init, initargs=(initfn,)) as pool:
-        return pool.map(fn, items, chunksize=cs)
+    procs = min(procs, len(items))
+    results = [None] * len(items)
+    nxt = 0
+    done = 0
+    workers = {}  # conn -> [proc, idx or None, t0]
+
+    def spawn():
+        a, b = ctx.Pipe()
+        p = ctx.Process(target=_hard_worker, args=(fn, initfn, b), daemon=True)
+        p.start()
+        b.close()
+        workers[a] = [p, None, 0.0]
+        return a
+
+    def feed(conn):
+        nonlocal nxt
+        if nxt < len(items):
+            workers[conn][1] = nxt
+            workers[conn][2] = time.time()
+            conn.send((nxt, items[nxt]))
+            nxt += 1
+        else:
+            workers[conn][1] = None
+
+    for _ in range(procs):
+        feed(spawn())
+    while done < len(items):
+        ready = _wait(list(workers.keys()), timeout=0.5)
+        for conn in ready:
+            w = workers[conn]
+            try:
+                idx, res = conn.recv()
+            except (EOFError, OSError):
+                idx = w[1]
+                workers.pop(conn)
+                w[0].join(0.2)
+                if idx is not None and results[idx] is None:
+                    results[idx] = ("dead", None)
+                    done += 1
+                if nxt < len(items):
+                    feed(spawn())
+                continue
+            if results[idx] is None:
+                results[idx] = res
+                done += 1
+            feed(conn)
+        now = time.time()
+        for conn, w in list(workers.items()):
+            if w[1] is not None and now - w[2] > hard_timeout:
+                idx = w[1]
+                w[0].kill()
+                w[0].join(1)
+                workers.pop(conn)
+                conn.close()
+                if results[idx] is None:
+                    results[idx] = ("timeout", None)
+                    done += 1
+                if nxt < len(items):
+                    feed(spawn())
+    for conn, w in workers.items():
+        try:
+            conn.send(None)
+        except Exception:  # noqa: BLE001
+            pass
+    for conn, w in workers.items():
+        w[0].join(0.3)
+        if w[0].is_alive():
+            w[0].kill()
+    out = []
+    for item, r in zip(items, results):
+        if r[0] == "ok":
+            out.append(r[1])
+        else:
+            out.append(on_timeout(item) if on_timeout else None)
+    return out
 
 
 # --------------------------------------------------------------------------
